@@ -194,6 +194,8 @@ class FakeMH:
         rp, d = TREE.resolve(self._path)
         if d is None:
             if create:
+                if TREE.resolve(os.path.dirname(self._path))[1] is None:
+                    raise FileNotFoundError(self._path)  # mailbox.MH.__init__: os.mkdir() without parents
                 TREE.mkdir(self._path)
                 d = TREE.dirs[self._path]
                 if d.seqfile is None:
@@ -258,6 +260,17 @@ class FakeMH:
         d = self._dir()
         new_key = 1 if not d.keys else d.keys[-1] + 1
         content = message.content if isinstance(message, FakeMsg) else message
+        if TREE.real_messages and not isinstance(content, (bytes, bytearray)):
+            # what mailbox.MH.add() writes to the message file: the stdlib's own serialiser
+            import io
+            import mailbox as _stdmb
+
+            class _Dump:
+                _append_newline = False
+
+            buf = io.BytesIO()
+            _stdmb.Mailbox._dump_message(_Dump(), content, buf)
+            content = buf.getvalue()
         TREE.effect(("add", self._path, new_key))
         d.keys.append(new_key)
         d.content.append(content)
@@ -475,6 +488,8 @@ class _AioOs:
         TREE.touched.append(("symlink", s, t))
         if t in TREE.dirs:
             raise FileExistsError(t)
+        if TREE.resolve(os.path.dirname(t))[1] is None:
+            raise FileNotFoundError(t)  # ENOENT: the directory the link goes into does not exist
         TREE.effect(("symlink", s, t))
         d = Dir()
         d.is_link_to = s
@@ -495,6 +510,8 @@ class _AioOs:
         TREE.touched.append(("rename", s, t))
         if s not in TREE.dirs:
             raise FileNotFoundError(s)
+        if TREE.resolve(os.path.dirname(t))[1] is None:
+            raise FileNotFoundError(t)  # ENOENT, as os.rename()
         TREE.effect(("rename", s, t))
         moved = {}
         for q in list(TREE.dirs):
